@@ -116,3 +116,30 @@ theorem octDec_head (n : Nat) : ∃ d r, octDec n = d :: r ∧ isOctDigit d = tr
   | cons d r => exact ⟨d, r, rfl, octDec_mem n d (by simp [hb])⟩
 
 end Stats
+
+namespace Stats
+open Bytes Wire Exchange
+
+/-- a negative number in its canonical rendering: `-` followed by the digits -/
+theorem pyIntWs_neg_natDec (lim n : Nat) (h : lim = 0 ∨ (natDec n).length ≤ lim) :
+    pyIntWs lim (45 :: natDec n) = some (-(n : Int)) := by
+  have hsp : strip (45 :: natDec n) = 45 :: natDec n := strip_eq_self _ fun x hx => by
+    rcases List.mem_cons.1 hx with rfl | hx
+    · decide
+    · exact isSpace_of_isDigit (natDec_mem_isDigit n x hx)
+  have hd : pyIntDigits (natDec n) false none = some n := by
+    rw [pyIntDigits_digits _ _ (natDec_mem_isDigit n), if_neg (natDec_ne_nil n)]
+    have := decVal_natDec n
+    unfold decVal at this
+    simp only [Option.getD_none]; rw [this]
+  have hp : pyInt (45 :: natDec n) = some (-(n : Int)) := by
+    simp [pyInt, hd]
+  have hc : digitCount (45 :: natDec n) = (natDec n).length := by
+    have h45 : isDigit (45 : UInt8) = false := by decide
+    simp only [digitCount, List.filter_cons, h45]
+    simpa [digitCount] using digitCount_natDec n
+  unfold pyIntWs
+  simp only [hsp, hp, hc]
+  rcases h with h | h <;> simp [h]
+
+end Stats
